@@ -366,6 +366,16 @@ func vfC12Run(dir string, c vfC12Case) (problems []string, detail map[string]any
 			} else if base.Class != c.T.base || base.Size != c.T.bsz {
 				detail["base"] = fmt.Sprintf("class%d size%d", base.Class, base.Size)
 				problems = append(problems, "base-type-differs")
+			} else if base.Class == core.DatatypeFixed {
+				// signedness (bit 3 of the class bit field) and byte order (bit 0) of the base type
+				wantSigned := c.T.name == "vlen-int32" || c.T.name == "vlen-int64"
+				if gotSigned := base.ClassBitField&0x08 != 0; gotSigned != wantSigned {
+					detail["base_bit_field"] = fmt.Sprintf("%#x", base.ClassBitField)
+					problems = append(problems, "base-type-signedness-differs")
+				}
+				if base.ClassBitField&0x01 != 0 {
+					problems = append(problems, "base-type-byte-order-differs")
+				}
 			}
 		}
 		if fmt.Sprint(info.Dataspace.Dimensions) != fmt.Sprint([]uint64{uint64(n)}) {
